@@ -452,7 +452,6 @@ static mut SIDE_KEYS: [u32; SIDE_CAP] = [0; SIDE_CAP];
 // different (real) capacity, which survives moves of the map value; no real insertion ever happens, so it never changes.
 static mut SIDE_OWNER: [usize; SIDE_CAP] = [0; SIDE_CAP];
 static mut SIDE_MAPS: usize = 0;
-const SIDE_MAP_CAPS: [usize; 6] = [1, 4, 8, 15, 29, 57];
 static mut SIDE_VALS: [Option<ColorPaletteEntry>; SIDE_CAP] = [None, None, None, None, None, None, None, None];
 static mut SIDE_N: usize = 0;
 
@@ -522,11 +521,25 @@ pub(crate) fn side_color(_this: &ColorPalette, index: u32) -> Option<&ColorPalet
 /// `HashMap::with_hasher` (what `IntMap::default()` calls): every map created gets its own real capacity, which
 /// identifies its rows in the side table (so two palettes alive at the same time stay apart)
 pub(crate) fn hm_with_hasher<K, V, S>(hash_builder: S) -> HashMap<K, V, S> {
+    // one arm per map number, each with a CONCRETE capacity: when an earlier map was created on some paths only, the
+    // map counter is symbolic, and a capacity computed from it would be an allocation of symbolic size (R10)
     unsafe {
-        assert!(SIDE_MAPS < SIDE_MAP_CAPS.len(), "side table: number of maps");
-        let c = SIDE_MAP_CAPS[SIDE_MAPS];
+        let n = SIDE_MAPS;
         SIDE_MAPS += 1;
-        HashMap::with_capacity_and_hasher(c, hash_builder)
+        if n == 0 {
+            HashMap::with_capacity_and_hasher(1, hash_builder)
+        } else if n == 1 {
+            HashMap::with_capacity_and_hasher(4, hash_builder)
+        } else if n == 2 {
+            HashMap::with_capacity_and_hasher(8, hash_builder)
+        } else if n == 3 {
+            HashMap::with_capacity_and_hasher(15, hash_builder)
+        } else if n == 4 {
+            HashMap::with_capacity_and_hasher(29, hash_builder)
+        } else {
+            assert!(n == 5, "side table: number of maps");
+            HashMap::with_capacity_and_hasher(57, hash_builder)
+        }
     }
 }
 
